@@ -33,6 +33,9 @@ def step (w : W) (toks : List String) : W × String :=
     | none => (w, "error")
   | ["down"] => ({ w with s := Defra.Repl.step w.s .down }, "ok")
   | ["up"] => ({ w with s := Defra.Repl.step w.s .up }, "ok")
+  -- a receiver whose DAG sync cannot complete fails every push exactly like one that is down
+  | ["slow"] => ({ w with s := Defra.Repl.step w.s .down }, "ok")
+  | ["fast"] => ({ w with s := Defra.Repl.step w.s .up }, "ok")
   | ["patch", _] => (w, "ok")
   | ["retry"] => let w := { w with s := Defra.Repl.step w.s .retry }; (w, book w)
   | ["settle"] =>
